@@ -16,6 +16,7 @@ func c13Configs(thorough bool) []lockCfg {
 		{Name: "two-tied-max2", Powers: []uint64{2, 2}, MaxValidators: 2, Tk2Weight: 3, Tk2Threshold: 0, Candidates: 3},
 		{Name: "two-max1", Powers: []uint64{2, 3}, MaxValidators: 1, Tk2Weight: 0, Tk2Threshold: 0, Candidates: 3},
 		{Name: "one-max3-tk2thr", Powers: []uint64{2}, MaxValidators: 3, Tk2Weight: 3, Tk2Threshold: 1, Candidates: 3},
+		{Name: "rich-v0-max2", Powers: []uint64{5, 2}, MaxValidators: 2, Tk2Weight: 0, Tk2Threshold: 0, Candidates: 3}, // stays above the threshold after a slash
 	}
 	if thorough {
 		cs = append(cs, lockCfg{Name: "three-tied-max2", Powers: []uint64{2, 2, 2}, MaxValidators: 2, Tk2Weight: 1, Tk2Threshold: 0, Candidates: 4})
@@ -39,6 +40,7 @@ func lockingOps(c lockCfg, rich bool) []engb.LOp {
 		{Kind: "weight", Token: 1, U64: 0},
 		{Kind: "weight", Token: 1, U64: 3},
 		{Kind: "weight", Token: 0, U64: 0},
+		{Kind: "weight", Token: 0, U64: 2},
 		{Kind: "threshold", Token: 0, Amt: amt(3)},
 		{Kind: "threshold", Token: 0, Amt: "0"},
 	}
@@ -53,7 +55,6 @@ func lockingOps(c lockCfg, rich bool) []engb.LOp {
 			engb.LOp{Kind: "lock", Val: 0, Token: 1, Amt: amt(1)},
 			engb.LOp{Kind: "unlock", Val: 0, Token: 1, Amt: amt(1)},
 			engb.LOp{Kind: "unlock", Val: 0, Token: 0, Amt: "1"},
-			engb.LOp{Kind: "weight", Token: 0, U64: 2},
 			engb.LOp{Kind: "threshold", Token: 1, Amt: amt(2)},
 			engb.LOp{Kind: "claim", Val: 0},
 		)
@@ -204,8 +205,13 @@ func runC13(r *mc.Run) {
 	r.Assumptions = []string{"votes/evidence name only validators the application put in the set", "histories are truncated where the validator set would become empty (environment liveness assumption)", "amount alphabet {1 wei, 1..3 units}"}
 	cfgs := c13Configs(r.Thorough())
 	r.Bounds["configs"] = len(cfgs)
+	r.Bounds["depth_blocks_small_configs"] = depth - 1
 	for _, c := range cfgs {
-		e := &engb.Explorer{Run: r, NewRoot: c.newRoot, Menu: c13Menu(c, r.Thorough()), Monitor: c13Monitor(r, c), Depth: depth, ConformanceDepth: 2}
+		d := depth
+		if c.Name == "two-max1" || c.Name == "one-max3-tk2thr" {
+			d = depth - 1 // smaller worlds get one level less; the budget goes to the two richer ones
+		}
+		e := &engb.Explorer{Run: r, NewRoot: c.newRoot, Menu: c13Menu(c, r.Thorough()), Monitor: c13Monitor(r, c), Depth: d, ConformanceDepth: 2}
 		if err := e.Explore(); err != nil {
 			panic(err)
 		}
